@@ -226,6 +226,7 @@ type getState struct {
 	d    int
 	res  chan getResult
 	need uint32 // update that the result must contain (0 = none)
+	read bool   // the Get read the backing store (no handle in the map when it started)
 }
 
 type outcome struct {
@@ -236,6 +237,7 @@ type outcome struct {
 	flags    map[string]bool
 	steps    int
 	executed []string // ops that were enabled and executed (without finalisation)
+	fatal    bool     // the store panicked while holding its lock: nothing more can be run
 }
 
 type runner struct {
@@ -256,6 +258,11 @@ type runner struct {
 	stopCmp            bool
 	lastLine, lastDump string
 }
+
+// fatalExit is called when the store panicked inside a lock-held section: the
+// mutex stays locked, no further segment (and not even the end of the synctest
+// bubble) can be reached, so the finding is written and the process ends.
+var fatalExit = func(*outcome) {}
 
 var progress atomic.Int64
 var currentHistory atomic.Value
@@ -386,6 +393,7 @@ func (r *runner) collect() {
 			if res.panic != "" {
 				r.fail("panic in Get(d%d): %s", gs.d, res.panic)
 				r.stopCmp = true
+				r.out.fatal = true
 				continue
 			}
 			if res.err != nil {
@@ -397,6 +405,8 @@ func (r *runner) collect() {
 			if !ok {
 				id = len(r.ids)
 				r.ids[any(res.h)] = id
+			} else if gs.read {
+				r.out.flags["adopted-handle-of-concurrent-get"] = true
 			}
 			r.held[g] = res.h
 			r.heldD[g] = gs.d
@@ -463,6 +473,11 @@ func (r *runner) apply(op string) bool {
 			}
 			if c.put {
 				puts = append(puts, c)
+				for _, hg := range sortedKeys(r.held) {
+					if r.heldD[hg] == c.d {
+						r.fail("Get(d%d) snapshotted and wrote the message of d%d while a client holds its handle (call %d) and may be mutating it", d, c.d, hg)
+					}
+				}
 				for _, p := range r.f.snapshotPending()[:before] {
 					if p.put && p.d == c.d {
 						r.out.flags["two-puts-one-digest"] = true
@@ -470,6 +485,7 @@ func (r *runner) apply(op string) bool {
 				}
 			} else {
 				read = "1"
+				gs.read = true
 				if c.d != d {
 					r.fail("Get(d%d) read digest d%d from the backing store", d, c.d)
 				}
@@ -572,6 +588,7 @@ func (r *runner) apply(op string) bool {
 				if p := recover(); p != nil {
 					r.fail("panic in Release: %v", p)
 					r.stopCmp = true
+					r.out.fatal = true
 				}
 			}()
 			if w[2] == "dirty" {
@@ -726,6 +743,9 @@ func runHistory(t *testing.T, ops []string, drv *hx.Driver, gen func(r *runner, 
 					out.executed = append(out.executed, op)
 					currentHistory.Store(out.executed)
 				}
+				if out.fatal {
+					fatalExit(&out)
+				}
 			}
 		} else {
 			for _, op := range ops {
@@ -734,6 +754,9 @@ func runHistory(t *testing.T, ops []string, drv *hx.Driver, gen func(r *runner, 
 				}
 				if r.apply(op) {
 					out.executed = append(out.executed, op)
+				}
+				if out.fatal {
+					fatalExit(&out)
 				}
 			}
 		}
@@ -878,6 +901,22 @@ func TestHarness(t *testing.T) {
 			}
 		}
 	}()
+
+	// handled outside the synctest bubble (real clock, no bubbled goroutines)
+	fatalCh := make(chan *outcome)
+	go func() {
+		out := <-fatalCh
+		res.Report(hx.Finding{Kind: "violation", Property: "C07", History: out.executed,
+			Name: "C07 monitor: the store never panics (store_inv: queue indices consistent)",
+			What: out.monitor, Sig: hx.Sig("C07", "protostore", "panic", strings.Join(out.executed, ";"))})
+		res.ModelLines = drv.Lines
+		res.Write(o)
+		os.Exit(0)
+	}()
+	fatalExit = func(out *outcome) {
+		fatalCh <- out
+		select {}
+	}
 
 	account := func(out *outcome) {
 		res.Evaluations += out.steps
